@@ -681,7 +681,8 @@ PROPS["C17"] = dict(
          "the last done races the next Do; history incl. instance start/saw-stop/return events must be a model history. non-trivial = K1 case where a Do was blocked "
          "by a stop phase and a second instance started, or K2 history with >=6 ops and an instance restart; distinct by op sequence",
     stages=[corr_stage("C17K1", 600, 2000, feature=feat_c17, seeds=3),
-            corr_stage("C17K2", 800, 5000, feature=feat_c17, seeds=3)],
+            corr_stage("C17K2", 800, 5000, feature=feat_c17, seeds=3),
+            corr_stage("C17SLOW", 10, 40, validate=False)],
 )
 
 # ---------------------------------------------------------------------------------------------------------------
@@ -795,7 +796,8 @@ PROPS["C06"] = dict(
                " Added (DESIGN 5b): every subscriber tracked by index (received by exactly `sent` distinct subscribers), standing => included from an invariant, split atomic steps re-proved (38 theorems).",
     level_note=_PS_NOTE,
     stages=[corr_stage("C06K2", 4000, 6000, feature=feat_pubsub, seeds=3),
-            corr_stage("C06S", 6, 10, feature=feat_pubsub, instrument=True, shards=6, tparams={"hits": 6}, timeout=1200)],
+            corr_stage("C06S", 6, 10, feature=feat_pubsub, instrument=True, shards=6, tparams={"hits": 6}, timeout=1200),
+            corr_stage("C06SUBCTX", 48, 400, feature=feat_pubsub, validate=False)],
 )
 PROPS["C07"] = dict(
     rule="C06K2 and C06S as for C06 (different programs: salt 7) with the C07 monitors: every call returns within 3 s (hang = MONITOR with the blocked calls), no panic "
@@ -809,7 +811,8 @@ PROPS["C07"] = dict(
     level_note=_PS_NOTE,
     stages=[corr_stage("C06K2", 4000, 6000, feature=feat_pubsub, seeds=3, params={"salt": 7}),
             corr_stage("C06S", 6, 10, feature=feat_pubsub, instrument=True, shards=6, params={"salt": 7}, tparams={"hits": 6}, timeout=1200),
-            corr_stage("C07SAN", 3000, 20000, feature=feat_pubsub)],
+            corr_stage("C07SAN", 3000, 20000, feature=feat_pubsub),
+            corr_stage("C06SUBCTX", 48, 400, feature=feat_pubsub, validate=False, params={"salt": 7})],
 )
 
 
